@@ -110,6 +110,15 @@ Section Flat.
     | Err _ => Err gen_init_dup_error        (* regenerated from Index.__init__: "ErrorInitIndex" *)
     end.
 
+  (* Index(labels, dtype=...) with non-array labels: the map is built from the labels AS GIVEN
+     (index.py:454) and only afterwards _extract_labels casts them to the dtype (index.py:471, 353):
+     `cast` = the labels after NumPy's conversion *)
+  Definition M_index_init_dtype (raw cast : list C) : res index :=
+    match am_build raw with
+    | Ok m => Ok (mk_index cast (Some m))
+    | Err _ => Err gen_init_dup_error
+    end.
+
   (* IndexAutoFactory: labels = positions = arange(n), no map *)
   Definition M_index_auto (n : nat) : index := mk_index (map of_Z (iota n)) None.
 
@@ -157,6 +166,9 @@ Section Flat.
 
   Definition M_index (l : list C) (probes : list key) : res obs :=
     match M_index_init l with Ok ix => Ok (M_observe ix probes) | Err e => Err e end.
+
+  Definition M_index_dtype (raw cast : list C) (probes : list key) : res obs :=
+    match M_index_init_dtype raw cast with Ok ix => Ok (M_observe ix probes) | Err e => Err e end.
 
   Definition M_auto (n : nat) (probes : list key) : obs := M_observe (M_index_auto n) probes.
   Definition S_auto (n : nat) (probes : list key) : obs := S_observe (map of_Z (iota n)) probes.
@@ -279,7 +291,8 @@ Section Flat.
           else match am_build mut' with
                | Ok m => (mk_go (g_labels g1) mut' (Some m) (g_count g1 + 1) true (g_npos g1), Ok tt)
                | Err e => (mk_go (g_labels g1) (if gen_go_push_before_map then mut' else g_mut g1) None
-                                 (g_count g1) (g_recache g1) (g_npos g1), Err e)
+                                 (g_count g1) (g_recache g1) (g_npos g1),
+                           Err (if gen_go_push_before_map then e else gen_append_dup_error))
                end
       end.
 
@@ -313,7 +326,9 @@ Section Flat.
   Definition M_go_lookup (g : go) (k : key) : res Z :=
     match g_map g with
     | Some m => match am_get m (fst k) with Some i => Ok i | None => Err "KeyError" end
-    | None => positions_getitem (g_npos g) k   (* self._positions[key] WITHOUT a _recache check (index.py:986) *)
+    | None =>  (* self._positions[key]; whether a stale cache is refreshed first is read from the source
+                  (index.py:982-986; gen_loc_to_iloc_recaches = false on the unrepaired tree) *)
+        positions_getitem (if gen_loc_to_iloc_recaches then g_count g else g_npos g) k
     end.
 
   (* the harness probes loc_to_iloc and `in` FIRST (on the state the history left), then the readers *)
@@ -399,7 +414,7 @@ Arguments OpAppend {C}. Arguments OpExtend {C}. Arguments OpTouch {C}.
 Arguments memb {C}. Arguments nodupb {C}. Arguments index_of {C}. Arguments S_lookup {C}.
 Arguments S_contains {C}. Arguments S_observe {C}. Arguments S_index {C}.
 Arguments am_get {C}. Arguments am_add {C}. Arguments am_extend {C}. Arguments am_build {C}.
-Arguments int_typed {C}. Arguments positions_getitem {C}. Arguments M_index_init {C}. Arguments M_index_auto {C}. Arguments key_int {C}.
+Arguments int_typed {C}. Arguments positions_getitem {C}. Arguments M_index_init {C}. Arguments M_index_init_dtype {C}. Arguments M_index_dtype {C}. Arguments M_index_auto {C}. Arguments key_int {C}.
 Arguments M_loc_to_iloc {C}. Arguments M_contains {C}. Arguments M_observe {C}.
 Arguments M_index {C}. Arguments M_auto {C}. Arguments S_auto {C}.
 Arguments M_loc_to_iloc_list {C}. Arguments S_lookup_list {C}. Arguments loc_slice {C}.
